@@ -19,6 +19,8 @@ fn extra_key() -> impl Strategy<Value = String> {
         4 => "[a-zA-Z][a-zA-Z0-9]{0,10}".prop_map(|s| s),
         1 => "[a-z]{3,6}_[0-9]{1,2}".prop_map(|s| s),
         1 => "[a-z]{2,5}_[a-z]{1,4}".prop_map(|s| s),
+        // keys that only resemble the ones with a place in the response (Hostname, mapnames, xpassword, numplayer ...)
+        1 => crate::util::near(&["hostname", "mapname", "maxplayers", "numplayers", "minplayers", "password", "gametype", "gamemode", "gamever", "tournament", "hostport", "final", "queryid", "AdminName", "AdminEMail"]),
     ]
 }
 
@@ -592,6 +594,9 @@ pub struct Gs3State {
     pub rot: usize,
     /// wanted packet payload size (smaller => more packets)
     pub packet_budget: usize,
+    /// per-player / per-team fields the client has no name for (`clan_`, `kill_streak_`, `colour_t`): (name without the `_` / `_t` ending, values)
+    #[serde(default)]
+    pub unknown_fields: Vec<(String, Vec<String>)>,
 }
 
 const GS3_TYPED: &[&str] = &[
@@ -629,9 +634,26 @@ pub fn gs3_state() -> impl Strategy<Value = Gs3State> {
         prop_oneof![3 => prop::collection::vec((nonempty(14), crate::util::num::<i32>(), crate::util::num::<u16>(), crate::util::num::<u8>(), crate::util::num::<u32>(), crate::util::num::<u32>(), crate::util::num::<u32>()), 0..4),
                     2 => prop::collection::vec((nonempty(14), -50i32..900, 0u16..500, 0u8..4, 0u32..50, crate::util::num::<u32>(), 0u32..9000), 4..65)],
         prop::collection::vec((nonempty(12), crate::util::num::<i32>()), 0..9),
-        (any::<bool>(), any::<prop::sample::Index>(), prop_oneof![Just(1800usize), 60usize..400, 400usize..1800]),
+        (
+            any::<bool>(),
+            any::<prop::sample::Index>(),
+            prop_oneof![Just(1800usize), 60usize..400, 400usize..1800],
+            // two states in three carry none; the values are arbitrary non-empty texts (an empty item ends a list), also ones that look like field names
+            prop_oneof![
+                2 => Just(Vec::new()),
+                1 => prop::collection::vec(
+                    (
+                        "[A-Za-z]{1,8}(_[a-z]{1,6})?",
+                        prop::collection::vec(prop_oneof![4 => nonempty(10), 1 => prop::sample::select(vec!["team", "score", "player", "ping_", "team_t", "score_t", "red_wolves", "no_clan", "skill_x", "1", "0"]).prop_map(|s| s.to_string())], 1..9),
+                    ),
+                    1..4
+                ),
+            ],
+        ),
     )
-        .prop_map(|(challenge, (hostname, mapname, password, gametype, gamever), (maxplayers, minplayers, numplayers), tournament, extras, players, teams, (with_pid, rot, packet_budget))| {
+        .prop_map(|(challenge, (hostname, mapname, password, gametype, gamever), (maxplayers, minplayers, numplayers), tournament, extras, players, teams, (with_pid, rot, packet_budget, unknown))| {
+            let known = ["player", "score", "ping", "team", "deaths", "pid", "skill"];
+            let unknown_fields: Vec<(String, Vec<String>)> = dedup_by_key(unknown).into_iter().filter(|(k, _)| !known.contains(&k.split('_').next().unwrap_or(""))).collect();
             let extras: Vec<(String, String)> = dedup_by_key(extras).into_iter().filter(|(k, _)| !GS3_TYPED.contains(&k.as_str())).collect();
             Gs3State {
                 challenge,
@@ -663,6 +685,7 @@ pub fn gs3_state() -> impl Strategy<Value = Gs3State> {
                 with_pid,
                 rot: rot.index(64),
                 packet_budget,
+                unknown_fields,
             }
         })
 }
@@ -744,10 +767,20 @@ impl Gs3State {
                 fields.push((1, "pid_".into(), self.players.iter().map(|p| p.pid.to_string()).collect()));
             }
             fields.push((1, "skill_".into(), self.players.iter().map(|p| p.skill.to_string()).collect()));
+            // fields without a known name, between the known ones
+            for (k, (name, vals)) in self.unknown_fields.iter().enumerate() {
+                let at = 1 + (self.rot + k) % fields.len();
+                fields.insert(at, (1, format!("{name}_"), (0 .. self.players.len()).map(|i| vals[i % vals.len()].clone()).collect()));
+            }
         }
         if !self.teams.is_empty() {
             fields.push((2, "team_t".into(), self.teams.iter().map(|t| t.0.clone()).collect()));
             fields.push((2, "score_t".into(), self.teams.iter().map(|t| t.1.to_string()).collect()));
+            if let Some((name, vals)) = self.unknown_fields.first() {
+                let at = (self.rot % 3).min(fields.len());
+                let first_team_field = fields.iter().position(|f| f.0 == 2).unwrap_or(fields.len());
+                fields.insert(first_team_field.max(fields.len() - 2 + at.min(2)), (2, format!("{name}_t"), (0 .. self.teams.len()).map(|i| vals[i % vals.len()].clone()).collect()));
+            }
         }
         let mut cur_section: u8 = 0;
         for (section, name, items) in fields {
